@@ -11,7 +11,9 @@ def _same(res, v):
     return False
 
 
-def minimise(spec, res, v, max_runs=300):
+def minimise(spec, res, v, max_runs=300, max_wall_s=90):
+    import time as _t
+    t_stop = _t.time() + max_wall_s
     seed = res.get('seed')
     best = res
     best_payload = spec.replay_payload(res)
@@ -19,7 +21,8 @@ def minimise(spec, res, v, max_runs=300):
 
     def attempt(payload):
         nonlocal runs, best, best_payload
-        if runs >= max_runs:
+        if runs >= max_runs or _t.time() > t_stop:
+            runs = max(runs, max_runs)
             return False
         runs += 1
         try:
